@@ -42,6 +42,7 @@ def gen_family(rng, n_roots=(1, 3), n_cond=(2, 8), n_rdm=(1, 4)):
     rtyp = rng.pick(['int', 'str', 'float'])
     fneg = rng.chance(0.2)       # some negative dissimilarities (family-wide)
     fzero = rng.chance(0.15)     # some exact zeros between different conditions (family-wide)
+    fnote = rng.chance(0.3)      # an rdm descriptor that only some of the root objects carry
     fdtype = rng.pick(['float64', 'float64', 'float64', 'float64', 'int64', 'float32'])     # dtype of the stacks handed to the constructor
     styp = rng.pick(['str', 'str', 'int', 'bigint', 'tiny'])     # object-level descriptor values incl. falsy ones ('' / 0), one type per family
     # (numbers that differ in the tenth digit -- acquisition ids, time stamps -- or far below one are different values)
@@ -70,6 +71,8 @@ def gen_family(rng, n_roots=(1, 3), n_cond=(2, 8), n_rdm=(1, 4)):
             spec['neg'] = True
         if fzero:
             spec['zeros'] = True
+        if fnote and rng.chance(0.5):
+            spec['rdm_desc']['note'] = {'values': ['n%d' % u for u in ru], 'container': rng.pick(['list', 'array'])}
         if rng.chance(0.25) and nc >= 4 and rdtype != 'int64':
             i, j = sorted(rng.sample(range(nc), 2))
             spec['nan_cells'].append([rng.randrange(nr), i, j])
@@ -665,17 +668,20 @@ class RdmsOps:
         cset = set(first.sem['cu'])
         cands = [s for s in self.rdms(True) if s.sid != first.sid and set(s.sem['cu']) == cset
                  and len(s.sem['cu']) == len(cset) and s.obj.dissimilarity_measure == first.obj.dissimilarity_measure
-                 and set(s.obj.rdm_descriptors.keys()) == set(first.obj.rdm_descriptors.keys())
+                 and set(s.obj.rdm_descriptors.keys()) - {'note'} == set(first.obj.rdm_descriptors.keys()) - {'note'}
                  and set(s.obj.pattern_descriptors.keys()) == set(first.obj.pattern_descriptors.keys())
                  and set(s.sem.get('missing', ())) == set(first.sem.get('missing', ()))
                  and (s.sem.get('remap') or {}) == (first.sem.get('remap') or {})]
-        if not cands:
+        single = o['a'][5] % 6 == 0        # one object alone: concat(rdms) / concat([rdms]) is that object's content again
+        if not cands and not single:
             return False
-        others = [cands[o['u'] % len(cands)]]
-        if len(cands) > 1 and o['flag2']:
-            c2 = cands[o['a'][3] % len(cands)]
-            if c2.sid != others[0].sid:
-                others.append(c2)
+        others = []
+        if not single:
+            others = [cands[o['u'] % len(cands)]]
+            if len(cands) > 1 and o['flag2']:
+                c2 = cands[o['a'][3] % len(cands)]
+                if c2.sid != others[0].sid:
+                    others.append(c2)
         ops = [first] + others
         kw = {}
         if o['a'][4] % 3 == 0:
@@ -802,6 +808,7 @@ class RdmsOps:
         cands = [s for s in self.rdms(True) if s.sid != t.sid and s.sem['cu'] == t.sem['cu']
                  and s.obj.dissimilarity_measure == t.obj.dissimilarity_measure
                  and set(t.obj.rdm_descriptors.keys()) <= set(s.obj.rdm_descriptors.keys())
+                 and ('note' in t.obj.rdm_descriptors) == ('note' in s.obj.rdm_descriptors)      # ("same shape and type")
                  and set(s.sem.get('missing', ())) == set(t.sem.get('missing', ()))
                  and (s.sem.get('remap') or {}) == (t.sem.get('remap') or {})]
         if not cands:
@@ -1040,10 +1047,22 @@ def _add_producers():
     def _eval_fixed(self, o, a, b):
         from rsatoolbox.model import ModelFixed
         from rsatoolbox.inference import eval_fixed
-        m = ModelFixed('m', a[0])
-        r = eval_fixed(m, b, method='cosine')
+        from rsatoolbox.model import ModelWeighted
+        # the model is built on the caller's RDMs object itself (a model keeps the object it is given), on one RDM of it,
+        # or as a weighted model of its RDMs evaluated at given weights
+        how = o['a'][2] % 4
+        theta = None
+        if how == 0:
+            m = ModelFixed('m', a[0])
+        elif how == 1 or a.n_rdm < 2:
+            m = ModelFixed('m', a)
+        else:
+            m = ModelWeighted('m', a)
+            theta = np.ones(a.n_rdm) if how == 2 else np.arange(1.0, a.n_rdm + 1)
+        r = eval_fixed(m, b, theta=theta, method=['cosine', 'corr'][o['a'][3] % 2])
         r.test_all() if b.n_rdm > 2 else None
-        return m
+        # (a model built on the caller's object keeps that object -- the listed model_* finding; it does not join the pool)
+        return m if how == 0 else None
     _producer('eval_fixed', _eval_fixed, needs_two=True)
 
     def _boot(self, o, a):
